@@ -173,6 +173,11 @@ func c05Expr(g *xgen.G, env *xgen.Env) string {
 		"substring-before(., '1')", "contains(., @id)", "starts-with(name(), 'a')", "local-name(*[last()])", "//a[position() = last()]", "(//b)[2]", "//a | //b | //c",
 		"reverse(//*)", "lower-case(.)", "string-length(.) + count(*)", "//*[not(preceding-sibling::*)]", "//a[b = c]", "//*[@id = //@id]", "boolean(//a[2])",
 		"substring(., 2, 3)", "ends-with(., '0')", "name(//*[3])", "number(.) * 2", "floor(sum(//@id[number(.) = number(.)]))", "//b[contains(., '1') or @k]",
+		// positional predicates on non-first steps (merge rewrite), name functions on prefixed nodes, non-literal regex arguments
+		"/*/*[2]", "//a/b[last()]", "*/*[position() = 2]", "/*/*/*[1]", "//*/*[last() - 1]", "//c/*[2][@id]",
+		"name()", "name(*)", "name(//*[2])", "concat(name(), '|', local-name(*), '|', name(..))", "//*[name() = name(..)]", "string-join(//@*, name())",
+		"replace(., string(@id), string(@k))", "replace(string(*), concat(@id, ''), name())", "matches(., string(@k))", "//*[matches(., concat('^', @id))]",
+		"floor(//b * 2)", "string(//b + 1)", "not(b = c)", "boolean(a and b)", "count(//a[b = c or @id])", "sum(//b[. = .]) + count(//a)",
 	}
 	switch r := g.Intn(10); {
 	case r < 4:
@@ -186,7 +191,12 @@ func c05Expr(g *xgen.G, env *xgen.Env) string {
 
 func c05Round(c *Case) {
 	g := c.G()
-	docs := c.docPool("docs", 6, func(dg *xgen.G) *xdoc.Doc { return valueDoc(dg) })
+	docs := c.docPool("docs", 8, func(dg *xgen.G) *xdoc.Doc {
+		if dg.Chance(0.3) {
+			return dg.NSTree(false) // prefixed names (no namespace map: matched by prefix)
+		}
+		return valueDoc(dg)
+	})
 	d := docs[g.Intn(len(docs))]
 	env := &xgen.Env{Doc: d, Ctx: d.Root, Names: namesIn(d)}
 	nexpr := 1 + g.Intn(3)
@@ -231,6 +241,8 @@ func c05Round(c *Case) {
 		}
 		plan = append(plan, ops)
 	}
+	// one namespace map shared, read-only, by all goroutines of the round (a client's package-level map)
+	sharedNS := map[string]string{"p": "urn:one", "q": "urn:two"}
 	// run
 	var clock int64
 	var wg sync.WaitGroup
@@ -261,7 +273,7 @@ func c05Round(c *Case) {
 						op.got = opDigest(ce, ctxs[op.ctx], "evaluate", 0, yield)
 					}
 				case "compile-ns":
-					ce, err := xpath.CompileWithNS(srcs[op.expr], map[string]string{"p": "urn:one"})
+					ce, err := xpath.CompileWithNS(srcs[op.expr], sharedNS)
 					if err != nil {
 						op.got = "COMPILE-ERROR " + err.Error()
 					} else {
